@@ -62,11 +62,11 @@ func callsIncErrors(info *types.Info, n ast.Node) bool {
 func c06ErrorsCounted(c *Ctx, r *Report) {
 	const rule = "C06-b/error-counted"
 	failing := map[string]bool{
-		batchersPkg + ".openFileToReader":                     true,
-		"rare/pkg/followreader.New":                           true,
-		"(rare/pkg/followreader.FollowReader).Drain":          true,
-		"(*rare/pkg/followreader.NotifyFollowReader).Drain":   true,
-		"(*rare/pkg/followreader.PollingFollowReader).Drain":  true,
+		batchersPkg + ".openFileToReader":                    true,
+		"rare/pkg/followreader.New":                          true,
+		"(rare/pkg/followreader.FollowReader).Drain":         true,
+		"(*rare/pkg/followreader.NotifyFollowReader).Drain":  true,
+		"(*rare/pkg/followreader.PollingFollowReader).Drain": true,
 	}
 	for _, fi := range c.AllFuncDecls(batchersPkg) {
 		info := fi.Pkg.TypesInfo
@@ -521,9 +521,7 @@ func c06Expansion(c *Ctx, r *Report) {
 				if nd.N == nil {
 					continue
 				}
-				if _, ok := nd.N.(*ast.SendStmt); ok {
-					sends++
-				}
+				sends += len(nodeSends(c, info, nd))
 				for _, ce := range callsIn(nd.N) {
 					cn := calleeName(info, ce)
 					if cn == "path/filepath.Walk" || cn == "path/filepath.WalkDir" {
@@ -553,12 +551,11 @@ func c06Expansion(c *Ctx, r *Report) {
 	}
 	// the literal fallback sends the loop variable itself
 	fallback := false
-	ast.Inspect(loop.Body, func(n ast.Node) bool {
-		if ss, ok := n.(*ast.SendStmt); ok && identObj(info, ss.Value) == pathVar {
+	for _, st := range sendSitesIn(c, info, loop.Body) {
+		if identObj(info, st.callerExpr(st.Stmt.Value)) == pathVar {
 			fallback = true
 		}
-		return true
-	})
+	}
 	r.Check(fallback, rule, fi.Name, "literal fallback", c.Pos(loop.Pos()), "flow: a pattern without matches is passed on literally (so the open error is reported)", "a path that matches nothing is dropped instead of being passed on literally")
 	// walk callback sends its own path parameter for non-directories
 	ast.Inspect(loop.Body, func(n ast.Node) bool {
